@@ -271,12 +271,12 @@ func ddlOne(bi int, b dBehaviour, dir string, res *vh.Result) *deviation {
 		if rolledBackDdl && (st.K == "ins" || st.K == "updw") {
 			res.Count("ddl:pattern:write-after-rolled-back-ddl", 1)
 		}
-		if droppedChkRolledBack && (st.K == "ins" || st.K == "updw") && st.W < 0 && out == "err" {
-			res.Count("ddl:pattern:drop-constraint-rolled-back-then-violating-write-refused", 1)
+		if droppedChkRolledBack && (st.K == "ins" || st.K == "updw") && st.W < 0 && st.Out == "err" {
+			res.Count("ddl:pattern:drop-constraint-rolled-back-then-violating-write-must-be-refused", 1)
 		}
 		o := e.observeDdl()
 		if why := dBreach(o); why != "" {
-			return dev("constraint-breach", fmt.Sprintf("after %q the committed state violates a committed constraint: %s", text, why))
+			return dev("ddl-isolation", fmt.Sprintf("after %q the committed state violates a committed constraint: %s", text, why))
 		}
 		if st.K == "commit" && out != st.Out && (out == "conflict" || st.Out == "conflict") {
 			res.Count("drift:ddl-commit-outcome", 1)
@@ -290,10 +290,10 @@ func ddlOne(bi int, b dBehaviour, dir string, res *vh.Result) *deviation {
 				e.exec(st.S, "COMMIT")
 				sqls = append(sqls, fmt.Sprintf("s%d: COMMIT", st.S))
 				if why := dBreach(e.observeDdl()); why != "" {
-					return dev("constraint-breach", fmt.Sprintf("%q was accepted and committed: %s", text, why))
+					return dev("ddl-isolation", fmt.Sprintf("%q was accepted and committed: %s", text, why))
 				}
 			}
-			return dev("violating-statement-accepted", fmt.Sprintf("%q succeeds; the design refuses it (catalog of the session: committed one, other sessions' uncommitted DDL must be invisible)", text))
+			return dev("ddl-isolation", fmt.Sprintf("%q succeeds; the design refuses it (a session works on the committed catalog; other sessions' uncommitted or rolled-back DDL must be invisible)", text))
 		case out != st.Out:
 			return dev("spurious-failure", fmt.Sprintf("%q: engine %s (%s), design %s", text, out, errText, st.Out))
 		case st.K == "showcat" && fmt.Sprint(seen[1:]) != fmt.Sprint(st.Seen[1:]):
